@@ -493,8 +493,8 @@ func main() {
 	}
 
 	// ---- scenarios: set a password (NewHash), log in with the right and with wrong passwords ----
-	n := c.N(6, 200)
-	emitBudget := c.N(8, 40)
+	n := c.N(6, 60)
+	emitBudget := c.N(8, 14)
 	for i := 0; i < n; i++ {
 		grp := groups[i%len(groups)]
 		prodP, p := grp.hex, grp.p // this scenario's group
@@ -567,7 +567,7 @@ func main() {
 	// their minimal big-endian form is shorter than 256 bytes, so every "pad to 2048 bits" step is
 	// exercised only then. Search server / client secrets that produce them (a few hundred modular
 	// exponentiations each), and also feed arbitrary short B directly.
-	for round := 0; round < c.N(1, 6); round++ {
+	for round := 0; round < c.N(1, 3); round++ {
 		grp := groups[(round+1)%len(groups)]
 		prodP, p := grp.hex, grp.p // this round's group
 		g := grp.gens[round%len(grp.gens)]
